@@ -73,6 +73,13 @@ CLAIMED["C14"] = dict(text="Bounded symbolic model checking of the real tag_excl
                   "distances is the oracle, compared as sets in both directions.",
              design="DESIGN.md 4/C14", technique="symbolic execution of the real Python code with z3 (symx); selector-only (exclusion distances are hashed by the code), exhaustive within the bound",
              note="chains/cycles/stars of <= 3 (quick) / 4 (thorough) residues, blocks of <= 3 atoms, bonds from next-residue links. " + NOTE_COMMON)
+CLAIMED["C02"] = dict(text="Bounded symbolic model checking of the real parsers + MapToMolecule + ApplyLinks for a catalogue of link definitions (orders +1/+2/-1, >, *, "
+                  "residue-name choices, replace, atom removal, non-edge and pattern vetoes, competing definitions with equal/different version) and for dangling "
+                  ".itp interactions, on residue graphs whose size, shape, names (incl. an ambiguous atom name), residue-id order, labelling and a labelled "
+                  "edge are solver-chosen and whose residue-id offset is symbolic; an independently written application rule per catalogue entry is the oracle, "
+                  "compared in both directions (interactions, edges, attributes, atoms).",
+             design="DESIGN.md 4/C02", technique="symbolic execution of the real Python code with z3 (symx): symbolic residue-id offset, selectors for structure; per-entry reference rules",
+             note="the catalogue (13 link families + 6 dangling forms) bounds the link definitions; explicit by_atom_id links and callable parameters are outside; <= 3 (quick) / 4 (thorough) residues. " + NOTE_COMMON)
 NOT_YET = {}
 def main():
     props = [json.loads(l) for l in open(os.path.join(ROOT, "properties.jsonl"))]
